@@ -208,19 +208,167 @@ theorem rtElem_flag (fm : List (Nat × Nat)) (maps : IdMaps) (e e' : ElemM) (h :
           intro ht hty
           simp [ht, hty, elemFlag]
 
+/-- what renumbering keeps of one operand: an entity operand stays an operand of the same index
+    space, anything else (numeric constants, types, block types) is unchanged -/
+def ArgKept (a a' : Arg) : Prop :=
+  match a with
+  | .ref sp _ => ∃ n, a' = .ref sp n
+  | x => a' = x
+
+theorem mapArgs_kept (m : IdMaps) : ∀ (args out : List Arg), mapArgs m args = some out →
+    out.length = args.length ∧ ∀ (k : Nat) (a : Arg), args[k]? = some a → ∃ a', out[k]? = some a' ∧ ArgKept a a'
+  | [], out, h => by simp [mapArgs] at h; subst h; simp
+  | .ref sp id :: r, out, h => by
+      simp only [mapArgs] at h
+      cases h1 : m.get sp id with
+      | none => simp [h1] at h
+      | some ix =>
+        cases h2 : mapArgs m r with
+        | none => simp [h1, h2] at h
+        | some r' =>
+          simp only [h1, h2, Option.some.injEq] at h
+          subst h
+          have ih := mapArgs_kept m r r' h2
+          refine ⟨by simp [ih.1], fun k a hk => ?_⟩
+          cases k with
+          | zero => simp at hk; subst hk; exact ⟨_, rfl, ix, rfl⟩
+          | succ k => simpa using ih.2 k a (by simpa using hk)
+  | .imm s0 :: r, out, h => by
+      simp only [mapArgs, Option.map_eq_some_iff] at h
+      obtain ⟨r', h2, rfl⟩ := h
+      have ih := mapArgs_kept m r r' h2
+      refine ⟨by simp [ih.1], fun k a hk => ?_⟩
+      cases k with
+      | zero => simp at hk; subst hk; exact ⟨_, rfl, rfl⟩
+      | succ k => simpa using ih.2 k a (by simpa using hk)
+  | .num n0 :: r, out, h => by
+      simp only [mapArgs, Option.map_eq_some_iff] at h
+      obtain ⟨r', h2, rfl⟩ := h
+      have ih := mapArgs_kept m r r' h2
+      refine ⟨by simp [ih.1], fun k a hk => ?_⟩
+      cases k with
+      | zero => simp at hk; subst hk; exact ⟨_, rfl, rfl⟩
+      | succ k => simpa using ih.2 k a (by simpa using hk)
+  | .bt s0 :: r, out, h => by
+      simp only [mapArgs, Option.map_eq_some_iff] at h
+      obtain ⟨r', h2, rfl⟩ := h
+      have ih := mapArgs_kept m r r' h2
+      refine ⟨by simp [ih.1], fun k a hk => ?_⟩
+      cases k with
+      | zero => simp at hk; subst hk; exact ⟨_, rfl, rfl⟩
+      | succ k => simpa using ih.2 k a (by simpa using hk)
+
+/-- what the round trip keeps of a constant expression: the operators, one for one and in order,
+    with their names and operands (`ArgKept`) -/
+def CExprKept (c c' : CExprM) : Prop :=
+  c'.length = c.length ∧ ∀ (i : Nat) (op : Op), c[i]? = some op → ∃ op', c'[i]? = some op' ∧
+    op'.name = op.name ∧ op'.args.length = op.args.length ∧
+    ∀ (k : Nat) (a : Arg), op.args[k]? = some a → ∃ a', op'.args[k]? = some a' ∧ ArgKept a a'
+
+theorem mapCExpr_kept (m : IdMaps) (c c' : CExprM) (h : mapCExpr m c = some c') : CExprKept c c' := by
+  unfold mapCExpr at h
+  refine ⟨mapM_some_length _ _ _ h, fun i op hi => ?_⟩
+  obtain ⟨op', hop', hf⟩ := mapM_some_get _ _ _ h i op hi
+  simp only [Option.map_eq_some_iff] at hf
+  obtain ⟨a, ha, rfl⟩ := hf
+  exact ⟨_, hop', rfl, (mapArgs_kept m _ _ ha).1, (mapArgs_kept m _ _ ha).2⟩
+/-- what the round trip keeps of one element segment: the mode (for an active segment the table it
+    initialises — an absent table operand means table 0), the kind of its items, the element type
+    and the number of expression items, and the function items renamed by the map `ρ` -/
+def ElemKept (ρ : List (Nat × Nat)) (e e' : ElemM) : Prop :=
+  (match e.mode with
+   | .active t off => ∃ t' off', e'.mode = .active t' off' ∧ t'.getD 0 = t.getD 0 ∧ CExprKept off off'
+   | .passive => e'.mode = .passive
+   | .declared => e'.mode = .declared) ∧
+  (match e.items with
+   | .funcs fs => ∃ fs', e'.items = .funcs fs' ∧ fs.mapM (assoc ρ) = some fs' ∧ fs'.length = fs.length
+   | .exprs ty es => ∃ es', e'.items = .exprs ty es' ∧ es'.length = es.length ∧
+       ∀ (i : Nat) (c : CExprM), es[i]? = some c → ∃ c', es'[i]? = some c' ∧ CExprKept c c')
+
+theorem rtElem_kept (fm : List (Nat × Nat)) (maps : IdMaps) (e e' : ElemM) (h : rtElem fm maps e = some e') :
+    ElemKept fm e e' := by
+  obtain ⟨fl, md, it⟩ := e
+  unfold rtElem at h
+  unfold ElemKept
+  cases md with
+  | passive =>
+    cases it with
+    | funcs fs =>
+      simp only at h
+      cases hm : fs.mapM (assoc fm) with
+      | none => simp [hm] at h
+      | some fs' => simp [hm] at h; subst h; exact ⟨rfl, fs', rfl, hm, mapM_some_length _ _ _ hm⟩
+    | exprs ty es =>
+      simp only at h
+      cases hm : es.mapM (mapCExpr maps) with
+      | none => simp [hm] at h
+      | some es' => simp [hm] at h; subst h; exact ⟨rfl, es', rfl, mapM_some_length _ _ _ hm, fun i c hi => (mapM_some_get _ _ _ hm i c hi).imp fun c' hc => ⟨hc.1, mapCExpr_kept _ _ _ hc.2⟩⟩
+  | declared =>
+    cases it with
+    | funcs fs =>
+      simp only at h
+      cases hm : fs.mapM (assoc fm) with
+      | none => simp [hm] at h
+      | some fs' => simp [hm] at h; subst h; exact ⟨rfl, fs', rfl, hm, mapM_some_length _ _ _ hm⟩
+    | exprs ty es =>
+      simp only at h
+      cases hm : es.mapM (mapCExpr maps) with
+      | none => simp [hm] at h
+      | some es' => simp [hm] at h; subst h; exact ⟨rfl, es', rfl, mapM_some_length _ _ _ hm, fun i c hi => (mapM_some_get _ _ _ hm i c hi).imp fun c' hc => ⟨hc.1, mapCExpr_kept _ _ _ hc.2⟩⟩
+  | active t off =>
+    have mode : ∀ (off'' : CExprM) (it' : ElemItemsM), ∃ t' off',
+        (match (ElemModeM.active (match t.getD 0 with | 0 => none | k => some k) off'' : ElemModeM) with
+          | .active none o => if elemFlag (ElemModeM.active (match t.getD 0 with | 0 => none | k => some k) off'') it' = 2 ||
+              elemFlag (ElemModeM.active (match t.getD 0 with | 0 => none | k => some k) off'') it' = 6 then ElemModeM.active (some 0) o
+              else (ElemModeM.active (match t.getD 0 with | 0 => none | k => some k) off'')
+          | x => x) = ElemModeM.active t' off' ∧ t'.getD 0 = t.getD 0 ∧ off' = off'' := by
+      intro off'' it'
+      cases ht : t.getD 0 with
+      | zero =>
+        simp only
+        split
+        · exact ⟨_, _, rfl, rfl, rfl⟩
+        · exact ⟨_, _, rfl, rfl, rfl⟩
+      | succ n => exact ⟨_, _, rfl, rfl, rfl⟩
+    cases it with
+    | funcs fs =>
+      simp only at h
+      cases ho : mapCExpr maps off with
+      | none => simp [ho] at h
+      | some off'' =>
+        cases hm : fs.mapM (assoc fm) with
+        | none => simp [ho, hm] at h
+        | some fs' =>
+          simp only [ho, hm, Option.map_some, Option.some.injEq] at h
+          subst h
+          obtain ⟨t', o', h1, h2, rfl⟩ := mode off'' (ElemItemsM.funcs fs')
+          exact ⟨⟨t', _, h1, h2, mapCExpr_kept _ _ _ ho⟩, fs', rfl, hm, mapM_some_length _ _ _ hm⟩
+    | exprs ty es =>
+      simp only at h
+      cases ho : mapCExpr maps off with
+      | none => simp [ho] at h
+      | some off'' =>
+        cases hm : es.mapM (mapCExpr maps) with
+        | none => simp [ho, hm] at h
+        | some es' =>
+          simp only [ho, hm, Option.map_some, Option.some.injEq] at h
+          subst h
+          obtain ⟨t', o', h1, h2, rfl⟩ := mode off'' (ElemItemsM.exprs ty es')
+          exact ⟨⟨t', _, h1, h2, mapCExpr_kept _ _ _ ho⟩, es', rfl, mapM_some_length _ _ _ hm, fun i c hi => (mapM_some_get _ _ _ hm i c hi).imp fun c' hc => ⟨hc.1, mapCExpr_kept _ _ _ hc.2⟩⟩
+
 theorem rtData_facts (maps : IdMaps) (d d' : DataM) (h : rtData maps d = some d') :
     d'.bytes = d.bytes ∧
     (match d.mode with
      | .passive => d'.mode = .passive ∧ d'.flag = 1
-     | .active mem _ => (∃ off, d'.mode = .active mem off) ∧ d'.flag = (match mem with | 0 => 0 | _ => 2)) := by
+     | .active mem o => (∃ off, d'.mode = .active mem off ∧ CExprKept o off) ∧ d'.flag = (match mem with | 0 => 0 | _ => 2)) := by
   obtain ⟨fl, md, by'⟩ := d
   unfold rtData at h
   cases md with
   | passive => simp at h; subst h; exact ⟨rfl, rfl, rfl⟩
   | active mem off =>
     simp only [Option.map_eq_some_iff] at h
-    obtain ⟨o', _, rfl⟩ := h
-    refine ⟨rfl, ⟨o', rfl⟩, ?_⟩
+    obtain ⟨o', ho', rfl⟩ := h
+    refine ⟨rfl, ⟨o', rfl, mapCExpr_kept _ _ _ ho'⟩, ?_⟩
     cases mem <;> simp [dataFlag]
 
 /-- everything `roundTripModule` returns, as equations on the components -/
@@ -233,7 +381,7 @@ structure RTComponents (m o : ModuleM) : Prop where
      | .func _ => ∃ t, j.2.2 = .func t
      | d => j.2.2 = d)
   globalsLen : o.globals.length = m.globals.length
-  globals : ∀ (k : Nat) (g : GlobalTyM × CExprM), m.globals[k]? = some g → ∃ h : GlobalTyM × CExprM, o.globals[k]? = some h ∧ h.1 = g.1
+  globals : ∀ (k : Nat) (g : GlobalTyM × CExprM), m.globals[k]? = some g → ∃ h : GlobalTyM × CExprM, o.globals[k]? = some h ∧ h.1 = g.1 ∧ CExprKept g.2 h.2
   exportsLen : o.exports.length = m.exports.length
   exports : ∀ (k : Nat) (e : String × String × Nat), m.exports[k]? = some e → ∃ e' : String × String × Nat, o.exports[k]? = some e' ∧ e'.1 = e.1 ∧ e'.2.1 = e.2.1 ∧
     (e.2.1 ≠ "f" → e'.2.2 = e.2.2)
@@ -242,7 +390,7 @@ structure RTComponents (m o : ModuleM) : Prop where
   datas : ∀ (k : Nat) (d : DataM), m.datas[k]? = some d → ∃ d' : DataM, o.datas[k]? = some d' ∧ d'.bytes = d.bytes ∧
     (match d.mode with
      | .passive => d'.mode = .passive
-     | .active mem _ => ∃ off, d'.mode = .active mem off)
+     | .active mem o => ∃ off, d'.mode = .active mem off ∧ CExprKept o off)
   startSome : m.start.isSome = o.start.isSome
   elems : ∀ (k : Nat) (e : ElemM), m.elems[k]? = some e → ∃ e' : ElemM, o.elems[k]? = some e' ∧
     (match e.mode, e.items with
@@ -266,7 +414,10 @@ structure RTComponents (m o : ModuleM) : Prop where
     (∀ s, m.start = some s → ∃ s', o.start = some s' ∧ assoc ρ s = some s') ∧
     (∀ no, o.names = some no → ∃ n, m.names = some n ∧ no.module = n.module ∧ no.funcs = funcNamesOut n.funcs ρ ∧
       no.tables = keepNames n.tables ∧ no.mems = keepNames n.mems ∧ no.globals = keepNames n.globals ∧
-      no.elems = keepNames n.elems ∧ no.datas = keepNames n.datas)
+      no.elems = keepNames n.elems ∧ no.datas = keepNames n.datas) ∧
+    -- ... and the function items of element segments; mode, table, item kind, element type and
+    -- item count of every element segment are kept
+    (∀ (k : Nat) (e : ElemM), m.elems[k]? = some e → ∃ e' : ElemM, o.elems[k]? = some e' ∧ ElemKept ρ e e')
 
 theorem roundTrip_components (m o : ModuleM) (h : roundTripModule m = some o) : RTComponents m o := by
   unfold roundTripModule at h
@@ -300,8 +451,8 @@ theorem roundTrip_components (m o : ModuleM) (h : roundTripModule m = some o) : 
           · intro k g hk
             obtain ⟨j, hj, hf⟩ := mapM_some_get _ _ _ hgl k g hk
             simp only [Option.map_eq_some_iff] at hf
-            obtain ⟨e, _, rfl⟩ := hf
-            exact ⟨_, hj, rfl⟩
+            obtain ⟨e, he, rfl⟩ := hf
+            exact ⟨_, hj, rfl, mapCExpr_kept _ _ _ he⟩
           · intro k e hk
             obtain ⟨j, hj, hf⟩ := mapM_some_get _ _ _ hex k e hk
             refine ⟨j, hj, ?_⟩
@@ -344,7 +495,7 @@ theorem roundTrip_components (m o : ModuleM) (h : roundTripModule m = some o) : 
             simp [hd]
           · simp
           · refine ⟨(List.range (importedCount m "f")).map (fun i => (i, i)) ++
-              oc.funcs.zipIdx.map (fun p => (p.1.id, importedCount m "f" + p.2)), ?_, ?_, ?_⟩
+              oc.funcs.zipIdx.map (fun p => (p.1.id, importedCount m "f" + p.2)), ?_, ?_, ?_, ?_⟩
             · intro k e hk hf
               obtain ⟨j, hj, hfj⟩ := mapM_some_get _ _ _ hex k e hk
               simp only [hf, if_true, Option.map_eq_some_iff] at hfj
@@ -364,6 +515,9 @@ theorem roundTrip_components (m o : ModuleM) (h : roundTripModule m = some o) : 
                 · simp only [Option.some.injEq] at hno
                   subst hno
                   exact ⟨n, rfl, rfl, rfl, rfl, rfl, rfl, rfl, rfl⟩
+            · intro k e hk
+              obtain ⟨j, hj, hf⟩ := mapM_some_get _ _ _ hel k e hk
+              exact ⟨j, hj, rtElem_kept _ _ e j hf⟩
         · cases h
 
 end Walrus
